@@ -25,6 +25,10 @@ Wrap(k, r, L) ==
     [] k = 6 -> [n |-> "filter", a |-> Lst(<<I(10), I(20), I(30)>>), f |-> Bin("gt", Nm("item"), r)]
     [] k = 7 -> [n |-> "every", its |-> <<It("i", Lst(<<I(1)>>))>>, body |-> Bin("gt", r, I(0))]
     [] k = 8 -> [n |-> "for", its |-> <<It("i", Lst(<<r>>))>>, body |-> Bin("add", Nm("i"), I(1))]
+    [] k = 9 -> [n |-> "filter", a |-> Lst(<<I(0), r>>), f |-> I(2)]                     \* [1 instance of tX, r][2]: after a reference to a type
+    [] k = 20 -> [n |-> "filter", a |-> Lst(<<I(0), r>>), f |-> I(2)]                    \* [1 instance of list<tX>, r][2]
+    [] k = 21 -> r                                                                        \* if 1 instance of tX then (r) else (r)
+    [] k = 16 -> [n |-> "path", a |-> [n |-> "ctx", ents |-> <<[key |-> L, v |-> I(7)], [key |-> "r", v |-> r]>>], id |-> "r"]   \* the key written as a string literal
     [] k = 10 -> [n |-> "path", a |-> [n |-> "ctx", ents |-> <<[key |-> L, v |-> I(7)], [key |-> "r", v |-> r]>>], id |-> "r"]
     [] k = 11 -> [n |-> "for", its |-> <<It(L, Lst(<<I(7)>>))>>, body |-> r]
     [] k = 12 -> [n |-> "invoke", f |-> [n |-> "fndef", ps |-> <<[p |-> L, ty |-> AnyT]>>, body |-> r], args |-> <<I(7)>>]
@@ -34,8 +38,8 @@ Wrap(k, r, L) ==
 
 Verdict(r) ==
   LET bound == {r.names[i].n : i \in 1..Len(r.names)}
-      L     == IF r.tpl >= 10 THEN Normal(r.local) ELSE ""
-      inner == IF r.tpl >= 13 THEN Nm(L) ELSE ParseOperands(r.parts, IF r.tpl >= 10 THEN bound \cup {L} ELSE bound)
+      L     == IF r.tpl \in 10..16 THEN Normal(r.local) ELSE ""
+      inner == IF r.tpl \in 13..15 THEN Nm(L) ELSE ParseOperands(r.parts, IF r.tpl \in 10..16 THEN bound \cup {L} ELSE bound)
       scope == <<Ctx([i \in 1..Len(r.names) |-> [n |-> r.names[i].n, v |-> r.names[i].v]])>>
   IN IF inner.n = "bad" THEN "TOOL: the parts do not denote an expression"
      ELSE LET want == Eval(Wrap(r.tpl, inner, L), scope) IN
